@@ -228,12 +228,43 @@ let huf_line line =
   | M.RErr _ -> "err"
   | M.RPanic _ -> "panic"
 
+
+(* ---- built-in match finder ---- *)
+let rec nat_of_int n = if n <= 0 then M.O else M.S (nat_of_int (n - 1))
+let rec int_of_nat = function M.O -> 0 | M.S k -> 1 + int_of_nat k
+let matcher_line line =
+  match List.filter (fun x -> x <> "") (split_on ' ' line) with
+  | slice :: slices :: ops ->
+    let d = ref (M.mgd_new (nat_of_int (int_of_string slice)) (nat_of_int (int_of_string slices))) in
+    let out = Buffer.create 256 in
+    Buffer.add_string out ("w:" ^ z_to_string (M.mgd_window_size !d));
+    let stop = ref false in
+    List.iter (fun op -> if not !stop then begin
+      let c = op.[0] in
+      let emit s = Buffer.add_char out ' '; Buffer.add_string out s in
+      let panic () = emit (String.make 1 c ^ ":panic"); stop := true in
+      if c = 'c' then (match M.commit_space !d (unhex (after op 1)) with
+        | M.ROk d' -> d := d'; emit "c:ok" | _ -> panic ())
+      else if c = 'm' then (match M.mgd_start !d with
+        | M.ROk (sq, d') -> d := d';
+          let f = function
+            | M.MLit l -> "L" ^ hex l
+            | M.MTriple (l, o, n) -> Printf.sprintf "T%s,%d,%d" (hex l) (int_of_nat o) (int_of_nat n) in
+          emit ("m:" ^ (if sq = [] then "-" else String.concat ";" (List.map f sq)))
+        | _ -> panic ())
+      else if c = 'k' then (match M.mgd_skip !d with M.ROk d' -> d := d'; emit "k:ok" | _ -> panic ())
+      else if c = 'g' then (match (!d).M.md_gen.M.mg_win with e0 :: _ -> emit ("g:" ^ hex e0.M.we_data) | [] -> panic ())
+      else begin d := M.mgd_reset !d; emit "r:ok" end end) ops;
+    Buffer.contents out
+  | _ -> "bad"
+
 let () =
   let cmd = if Array.length Sys.argv > 1 then Sys.argv.(1) else "" in
   let f = match cmd with
     | "prog" -> run_prog
     | "fse" -> fse_line
     | "huf" -> huf_line
+    | "matcher" -> matcher_line
     | _ -> prerr_endline "usage: driver <prog|fse|huf> < cases"; exit 2 in
   (try
     while true do
